@@ -3,6 +3,11 @@ import OmbottModel.Model.BodyAccess
 import OmbottModel.Lemmas.FormsRoundtrip
 import OmbottModel.Props.C06
 import OmbottModel.Gen.Forms
+import OmbottModel.Model.Upload
+import OmbottModel.Lemmas.Upload
+import OmbottModel.Lemmas.UploadCopy
+import OmbottModel.Lemmas.UploadWindow
+import OmbottModel.Lemmas.UploadIdem
 /-!
 C07 — Multipart forms and uploads round-trip exactly.
 Property theorems only; helper lemmas live in `Lemmas/Forms*.lean`.
@@ -264,3 +269,326 @@ example :
 end NonVacuity
 
 end Ombott.Forms
+
+
+/-! ## ===== the upload object and the file proxies (extension; model `Model/Upload.lean`) ===== -/
+namespace Ombott.Upload
+open Py Ombott.Forms Ombott.Multipart
+
+/-- **Tie to the source.**  The constants the model of `FileUpload` / `BytesIOProxy` / `FieldStorage.__init__`
+hard-codes are the ones extracted from the live modules: the two patterns of `FileUpload.filename`, the slots,
+the two `HeaderProperty` attributes (header names, reader, default), the defaults of `save` / `_copy_file`,
+`SEEK_SET/CUR/END`, the constant answers of a live `BytesIOProxy`, the attributes of a fresh `FieldStorage`. -/
+theorem upload_tables_tie :
+    Gen.upPatt1 = "[^a-zA-Z0-9-_.\\s]" ∧ Gen.upPatt2 = "[-\\s]+" ∧
+    Gen.upSlots = ["file", "name", "raw_filename", "headers", "__dict__"] ∧
+    Gen.upHeaderProps = [("content_type", String.ofList ctHeader, "none", "''"),
+                         ("content_length", String.ofList clHeader, "int", "-1")] ∧
+    Gen.upSaveDefaults = [("overwrite", "False"), ("chunk_size", "65536"), ("_copy_file.chunk_size", "65536")] ∧
+    Gen.upWhence = [0, 1, 2] ∧
+    Gen.upProxyFlags = [("isatty", "False"), ("seekable", "True"), ("readable", "True"), ("writable", "False"),
+      ("fileno", "OSError"), ("close", "None"), ("flush", "None"), ("closed", "False")] ∧
+    Gen.upFieldInit = [("ctype", "None"), ("file", "None"), ("filename", "None"), ("headers", "{}"),
+      ("name", "None"), ("value", "None")] ∧
+    fieldInit = ⟨[], none, none, none, none, []⟩ := by
+  decide
+
+/-- the probed normaliser fixes ASCII (what `filename_idempotent` asks of a normaliser) -/
+theorem nfkdTable_ascii_id : (List.range 128).all (fun n => nfkdTable (Char.ofNat n) == [Char.ofNat n]) = true := by
+  decide +kernel
+
+/-- **`filename_safe`.**  For EVERY raw file name (any text, any bytes — decoded leniently —, any normaliser `nf`)
+the sanitised name `upload.filename` is non-empty, at most 255 characters long, consists only of ASCII letters,
+digits, `-`, `_`, `.` (hence holds no `/`, no backslash, no NUL, no white space), does not start with `.` or `-`,
+is neither `.` nor `..`; and it does not end with `.` or `-` PROVIDED the name was not cut at 255 characters
+(the real code truncates after stripping: see the witness below — reported as a defect).  Consequently
+`os.path.join(directory, filename)` is a direct child of the directory: its path segments are those of the
+directory followed by exactly the file name. -/
+theorem filename_safe (nf : Char → List Char) (raw : RawName) (f : Str) (h : sanitize nf raw = some f) :
+    f ≠ [] ∧ f.length ≤ 255 ∧ (∀ c ∈ f, isSafeChar c = true) ∧
+    (∀ c ∈ f, c ≠ '/' ∧ c ≠ '\\' ∧ c ≠ Char.ofNat 0 ∧ isWsChar c = false) ∧
+    (∀ c, f.head? = some c → isDotDash c = false) ∧
+    (∀ s, rawText raw = some s → (preTrunc nf s).length ≤ 255 → ∀ c, f.getLast? = some c → isDotDash c = false) ∧
+    f ≠ cs!"." ∧ f ≠ cs!".." ∧
+    (∀ d : Str, d ≠ [] → StaticFile.segments (StaticFile.join d f) = StaticFile.segments d ++ [f]) := by
+  unfold sanitize at h
+  cases hr : rawText raw with
+  | none => rw [hr] at h; simp at h
+  | some s =>
+    rw [hr] at h
+    simp only [Option.map_some, Option.some.injEq, sanitizeStr] at h
+    subst h
+    have hchars := preTrunc_chars nf s
+    have hhead := preTrunc_head nf s
+    have hlast := preTrunc_last nf s
+    have hsafe : ∀ c ∈ truncOrEmpty (preTrunc nf s), isSafeChar c = true := by
+      rcases truncOrEmpty_cases (preTrunc nf s) with ⟨_, h2⟩ | ⟨_, h2⟩
+      · rw [h2]; decide
+      · rw [h2]; intro c hc; exact hchars c (List.mem_of_mem_take hc)
+    have hne : truncOrEmpty (preTrunc nf s) ≠ [] := by
+      rcases truncOrEmpty_cases (preTrunc nf s) with ⟨_, h2⟩ | ⟨h1, h2⟩
+      · rw [h2]; decide
+      · rw [h2]; cases hp : preTrunc nf s with
+        | nil => exact absurd hp h1
+        | cons a as => simp
+    have hhd : ∀ c, (truncOrEmpty (preTrunc nf s)).head? = some c → isDotDash c = false := by
+      rcases truncOrEmpty_cases (preTrunc nf s) with ⟨_, h2⟩ | ⟨h1, h2⟩
+      · rw [h2]; intro c hc; simp at hc; subst hc; decide
+      · rw [h2]; intro c hc
+        apply hhead c
+        cases hp : preTrunc nf s with
+        | nil => exact absurd hp h1
+        | cons a as => rw [hp] at hc; simpa using hc
+    have hslash : '/' ∉ truncOrEmpty (preTrunc nf s) := fun hm => (safe_not_slash _ (hsafe _ hm)).1 rfl
+    refine ⟨hne, ?_, hsafe, fun c hc => safe_not_slash c (hsafe c hc), hhd, ?_, ?_, ?_, ?_⟩
+    · rcases truncOrEmpty_cases (preTrunc nf s) with ⟨_, h2⟩ | ⟨_, h2⟩
+      · rw [h2]; decide
+      · rw [h2, List.length_take]; omega
+    · intro s' hs' hlen c hc
+      simp only [Option.some.injEq] at hs'
+      subst hs'
+      rcases truncOrEmpty_cases (preTrunc nf s) with ⟨_, h2⟩ | ⟨_, h2⟩
+      · rw [h2] at hc; simp at hc; subst hc; decide
+      · rw [h2, List.take_of_length_le hlen] at hc
+        exact hlast c hc
+    · intro he
+      have := hhd '.' (by rw [he]; rfl)
+      simp [isDotDash] at this
+    · intro he
+      have := hhd '.' (by rw [he]; rfl)
+      simp [isDotDash] at this
+    · intro d hd
+      exact join_direct_child d _ hd hne hslash
+
+/-- **`filename_idempotent`.**  Sanitising a sanitised name returns it: for every raw name and every normaliser
+that fixes ASCII (as NFKD does; `nfkdTable_ascii_id` for the probed table), `FileUpload(…, filename).filename ==
+filename` — PROVIDED the sanitised name does not end with `.` or `-`, which by `filename_safe` can only happen
+when the name was cut at 255 characters (then a second pass strips the trailing dot: witness below). -/
+theorem filename_idempotent (nf : Char → List Char) (hnf : ∀ c : Char, c.toNat < 128 → nf c = [c])
+    (raw : RawName) (f : Str) (h : sanitize nf raw = some f)
+    (hlast : ∀ c, f.getLast? = some c → isDotDash c = false) :
+    sanitize nf (.str f) = some f := by
+  obtain ⟨hne, hlen, hsafe, _, hhd, _, _, _, _⟩ := filename_safe nf raw f h
+  have hdd : NoDD f := by
+    unfold sanitize at h
+    cases hr : rawText raw with
+    | none => rw [hr] at h; simp at h
+    | some s =>
+      rw [hr] at h
+      simp only [Option.map_some, Option.some.injEq, sanitizeStr] at h
+      have hq := truncOrEmpty_noDD (preTrunc nf s) (preTrunc_noDD nf s)
+      rw [h] at hq
+      exact hq
+  have hfix := preTrunc_clean_fix nf hnf f ⟨hsafe, hdd, hhd, hlast⟩
+  simp only [sanitize, rawText, Option.map_some, sanitizeStr, hfix]
+  rcases truncOrEmpty_cases f with ⟨h1, _⟩ | ⟨_, h2⟩
+  · exact absurd h1 hne
+  · rw [h2, List.take_of_length_le hlen]
+
+/-- `n` further reads of `upload.filename` -/
+def readsN (nf : Char → List Char) : Nat → FileUpload → FileUpload
+  | 0, u => u
+  | n + 1, u => readsN nf n (u.filenameGet nf).2
+
+/-- **`filename_cached_once`.**  The first read of `upload.filename` runs the getter (once) and stores the value;
+every later read returns the stored value and leaves the object — in particular the count of getter runs — as it
+is.  So over any number of reads the sanitiser runs exactly once and all reads agree. -/
+theorem filename_cached_once (nf : Char → List Char) (u : FileUpload) (f : Str)
+    (hc : u.cached = none) (h : sanitize nf u.rawFilename = some f) :
+    (u.filenameGet nf).1 = .ok f ∧ (u.filenameGet nf).2.computed = u.computed + 1 ∧
+    (u.filenameGet nf).2.cached = some f ∧
+    ∀ n : Nat, readsN nf n (u.filenameGet nf).2 = (u.filenameGet nf).2 ∧
+      ((readsN nf n (u.filenameGet nf).2).filenameGet nf).1 = .ok f := by
+  have h1 : u.filenameGet nf = (.ok f, { u with cached := some f, computed := u.computed + 1 }) := by
+    simp [FileUpload.filenameGet, hc, h]
+  rw [h1]
+  refine ⟨rfl, rfl, rfl, ?_⟩
+  have hfix : ∀ u' : FileUpload, u'.cached = some f → u'.filenameGet nf = (.ok f, u') := by
+    intro u' hu; simp [FileUpload.filenameGet, hu]
+  intro n
+  induction n with
+  | zero => exact ⟨rfl, by rw [readsN, hfix _ rfl]⟩
+  | succ n ih =>
+    rw [readsN, hfix _ rfl]
+    exact ih
+
+/-- **`copy_file_exact`.**  `_copy_file` from a file object with ANY content, ANY starting offset, ANY
+`chunk_size > 0` and ANY schedule of short reads terminates (the fuel is never exhausted), hands the sink exactly
+`content[offset:]` in non-empty pieces of at most `chunk_size` bytes, and seeks back to the offset. -/
+theorem copy_file_exact (data : Bytes) (pos : Nat) (sched : List Nat) (chunk : Int) (hc : 0 < chunk) :
+    ∃ ps f', copySFile chunk ⟨data, pos, sched⟩ = some (.ok (ps, f')) ∧
+      ps.flatten = data.drop pos ∧ (∀ p ∈ ps, p ≠ [] ∧ (p.length : Int) ≤ chunk) ∧
+      f'.pos = pos ∧ f'.data = data := by
+  obtain ⟨ps, f', h1, h2, h3, h4⟩ := copyLoop_sfile chunk hc (sfileFuel ⟨data, pos, sched⟩) ⟨data, pos, sched⟩
+    (by simp [sfileFuel])
+  refine ⟨ps, { f' with pos := pos }, ?_, h2, h3, rfl, h4⟩
+  unfold copySFile copyFileFuel
+  rw [h1]
+  have hp : ¬ ((pos : Int) < 0) := by omega
+  simp [sfileOps, SFile.seek, hp]
+
+/-- **`save_filelike_exact`.**  Saving an upload whose window `[st, en)` lies inside the buffered body to a
+file-like destination, from any current position, with any `chunk_size` (also ≤ 0), memory or spooled: the sink
+receives exactly the bytes from the current position to the end of the window, in non-empty pieces (of at most
+`chunk_size` bytes when that is positive), nothing is opened, and the upload is left exactly as it was. -/
+theorem save_filelike_exact (nf : Char → List Char) (fs : Fs) (body : Bytes) (sp : Bool) (u : FileUpload)
+    (overwrite : Bool) (chunk : Int) (st en pos : Nat) (hu : u.file = ⟨st, en, pos⟩)
+    (h1 : st ≤ pos) (h2 : pos ≤ en) (h3 : en ≤ body.length) :
+    ∃ ps, u.save nf fs body sp false .filelike overwrite chunk = some (.ok ⟨none, ps⟩, u) ∧
+      ps.flatten = window body pos en ∧ (∀ p ∈ ps, p ≠ [] ∧ (0 < chunk → (p.length : Int) ≤ chunk)) := by
+  obtain ⟨ps, hcp, hfl, hps⟩ := copyProxy_exact body sp chunk st en pos h1 h2 h3
+  refine ⟨ps, ?_, hfl, hps⟩
+  simp only [FileUpload.save, hu, hcp]
+  cases u; simp_all
+
+/-- **`save_refuses_existing`.**  With `overwrite=False`, a destination path that exists — the path itself when it
+is not a directory, `join(directory, filename)` when it is — is refused with `IOError` before anything is opened
+or written, and the upload's file position is untouched. -/
+theorem save_refuses_existing (nf : Char → List Char) (fs : Fs) (body : Bytes) (sp closed : Bool) (u : FileUpload)
+    (d : Str) (chunk : Int) :
+    (fs.isdir d = false → fs.exists_ d = true →
+      u.save nf fs body sp closed (.path d) false chunk = some (.error (.other "OSError", none), u)) ∧
+    (∀ f, fs.isdir d = true → u.cached = none → sanitize nf u.rawFilename = some f →
+      fs.exists_ (StaticFile.join d f) = true →
+      ∃ u', u.save nf fs body sp closed (.path d) false chunk = some (.error (.other "OSError", none), u') ∧
+        u'.file = u.file ∧ u'.cached = some f) := by
+  constructor
+  · intro hd he
+    simp [FileUpload.save, hd, he]
+  · intro f hd hc hs he
+    refine ⟨{ u with cached := some f, computed := u.computed + 1 }, ?_, rfl, rfl⟩
+    simp [FileUpload.save, hd, FileUpload.filenameGet, hc, hs, he]
+
+/-- **`save_dir_uses_sanitised_name`.**  Saving into a directory opens exactly `join(directory, filename)` with the
+SANITISED name (never the raw one), which is a direct child of the directory (its segments are the directory's
+followed by the name), and — the name being free and the window inside the body — writes exactly the rest of the
+window there and restores the position. -/
+theorem save_dir_uses_sanitised_name (nf : Char → List Char) (fs : Fs) (body : Bytes) (sp : Bool) (u : FileUpload)
+    (d f : Str) (overwrite : Bool) (chunk : Int) (st en pos : Nat) (hd0 : d ≠ [])
+    (hd : fs.isdir d = true) (hc : u.cached = none) (hs : sanitize nf u.rawFilename = some f)
+    (hfree : overwrite = true ∨ fs.exists_ (StaticFile.join d f) = false)
+    (hopen : fs.openErr (StaticFile.join d f) = none)
+    (hu : u.file = ⟨st, en, pos⟩) (h1 : st ≤ pos) (h2 : pos ≤ en) (h3 : en ≤ body.length) :
+    ∃ ps u', u.save nf fs body sp false (.path d) overwrite chunk = some (.ok ⟨some (StaticFile.join d f), ps⟩, u') ∧
+      ps.flatten = window body pos en ∧ u'.file = u.file ∧
+      StaticFile.segments (StaticFile.join d f) = StaticFile.segments d ++ [f] := by
+  obtain ⟨ps, hcp, hfl, _⟩ := copyProxy_exact body sp chunk st en pos h1 h2 h3
+  have hseg := (filename_safe nf u.rawFilename f hs).2.2.2.2.2.2.2.2 d hd0
+  refine ⟨ps, { u with cached := some f, computed := u.computed + 1 }, ?_, hfl, rfl, hseg⟩
+  have hex : (!overwrite && fs.exists_ (StaticFile.join d f)) = false := by
+    rcases hfree with h | h <;> simp [h]
+  simp [FileUpload.save, hd, FileUpload.filenameGet, hc, hs, hex, hopen, hu, hcp]
+
+/-- **`proxy_window` (safety half): no byte from outside the window.**  For EVERY sequence of operations on a
+`BytesIOProxy(src, st, en)` with `st ≤ en` — reads with any size, seeks with any offset and any `whence`
+(malformed ones included), the constant methods, closing the source — the position stays inside `[st, en]` and
+every `read` returns a contiguous piece `src[a : a+k]` with `st ≤ a` and `a + k ≤ en`: a handler can never see
+a byte of another part through an upload's file object. -/
+theorem proxy_window_safe (body : Bytes) (sp : Bool) (st en : Nat) (hse : st ≤ en) (ops : List POp) :
+    ∀ r ∈ (runProxy body sp ⟨Proxy.new st en, false⟩ ops).1, InWindow body st en r := by
+  have hinv : PInv st en ⟨Proxy.new st en, false⟩ := ⟨rfl, rfl, by simp [Proxy.new], by simp [Proxy.new]; omega⟩
+  exact (runProxy_inv body sp st en hse ops _ hinv).2
+
+/-- **`proxy_window` (refinement half).**  A `BytesIOProxy(src, st, en)` over a window inside the buffered body
+(memory or spooled) behaves exactly like `io.BytesIO(src[st:en])`: for EVERY sequence of operations that both
+define alike (`AgreeSeq`: any `read` except `read(0)`, any `seek` with any `whence` — unknown ones raise on both
+sides — whose target is not beyond the end and, for `SEEK_SET`, not negative; `tell`, `isatty`, `seekable`,
+`readable`, `fileno`, `flush`) the two answer sequences are equal.  The documented differences are exactly the
+excluded operations: `read(0)` reads to the end of the window, a seek beyond the end clamps to the end, a
+negative `SEEK_SET` clamps to 0, `writable()` is `False`. -/
+theorem proxy_window (body : Bytes) (sp : Bool) (st en : Nat) (hse : st ≤ en) (h3 : en ≤ body.length)
+    (ops : List POp) (ha : AgreeSeq ⟨window body st en, 0⟩ ops) :
+    (runProxy body sp ⟨Proxy.new st en, false⟩ ops).1 = (runBio ⟨window body st en, 0⟩ ops).1 :=
+  run_sim body sp st en hse h3 ops _ _ ⟨by simp [Proxy.new], rfl, rfl, by simp⟩ ha
+
+/-- **`upload_roundtrip_save`.**  Composition with `parts_disjoint` / `form_roundtrip`: for every field list of the
+domain, the upload object that `_collect_multipart` builds for part `i` (window = the part's data range), saved to
+a file-like destination with any chunk size, delivers exactly the part's content, and is left at offset 0. -/
+theorem upload_roundtrip_save (boundary : Str) (fields : List Field) (epilogue : Bytes)
+    (hf : ∀ f ∈ fields, FieldOK f) (nf : Char → List Char) (fs : Fs) (sp : Bool) (chunk : Int)
+    (i : Nat) (n fn : Str) (ct : Option Str) (c : Bytes) (r : Nat × Nat) (hdrs : List (Str × Header))
+    (hfi : fields[i]? = some (.file n fn ct c))
+    (hri : (dataRanges (Spec.delim (utf8Encode boundary)).length (2 + (utf8Encode boundary).length) fields)[i]? = some r) :
+    let body := encodeForm boundary fields epilogue
+    let u := ofCollected ⟨n, fn, hdrs, ((r.1 : Int), (r.2 : Int))⟩
+    ∃ ps, u.save nf fs body sp false .filelike false chunk = some (.ok ⟨none, ps⟩, u) ∧ ps.flatten = c := by
+  intro body u
+  obtain ⟨_, hcontent, _, _⟩ := parts_disjoint boundary fields epilogue hf
+  obtain ⟨hr2, hdata, hdelim⟩ := hcontent i _ r hfi hri
+  simp only [Field.data] at hr2 hdata hdelim
+  have hlen : r.2 ≤ body.length := by
+    refine Decidable.byContradiction fun hgt => ?_
+    have : List.drop r.2 (encodeForm boundary fields epilogue) = [] :=
+      List.drop_eq_nil_of_le (by show (encodeForm boundary fields epilogue).length ≤ r.2; simp only [body] at hgt; omega)
+    rw [this] at hdelim
+    simp [Spec.delim, CRLF] at hdelim
+  obtain ⟨ps, hsave, hfl, _⟩ := save_filelike_exact nf fs body sp u false chunk r.1 r.2 r.1
+    (by simp [u, ofCollected, FileUpload.init, Proxy.new]) (Nat.le_refl _) (by omega) hlen
+  refine ⟨ps, hsave, ?_⟩
+  rw [hfl, window, hr2]
+  simpa using hdata
+
+section NonVacuity
+
+/-- `filename_safe`: a hostile raw name (path traversal through compatibility characters that NFKD turns into
+`.`, `/`, `\`), its sanitised form, and the hypotheses of the theorem -/
+example : sanitize nfkdTable (.str [Char.ofNat 0x2025, Char.ofNat 0xFF0F, 'e', 't', 'c', Char.ofNat 0xFF3C, ' ', '.', 'p', ' ', 'w', Char.ofNat 0xE9, '.']) =
+    some cs!"p-we" := by decide +kernel
+
+example : sanitize nfkdTable (.bytes [0x2e, 0x2e, 0x2f, 0xff, 0xc3]) = some cs!"empty" := by decide +kernel
+
+/-- the trailing-dot clause needs its length hypothesis: 254 letters + `.b` is cut to a name that ends with a
+dot (witness of the defect; the same on the real code) -/
+example : (sanitize (fun c => [c]) (.str (List.replicate 254 'a' ++ cs!".b"))).map (fun f => (f.length, f.getLast?)) =
+    some (255, some '.') := by decide +kernel
+
+/-- `filename_idempotent`: the hypotheses on a concrete name; and the witness that the hypothesis on the last
+character is needed (the cut name of the previous example loses its dot in a second pass) -/
+example : sanitize nfkdTable (.str cs!" my  file--v2 .tar.gz. ") = some cs!"my-file-v2-.tar.gz" ∧
+    sanitize nfkdTable (.str cs!"my-file-v2-.tar.gz") = some cs!"my-file-v2-.tar.gz" := by decide +kernel
+
+example : (sanitize (fun c => [c]) (.str (List.replicate 254 'a' ++ cs!"."))).map List.length = some 254 := by
+  decide +kernel
+
+/-- `filename_cached_once`, `save_*`: an upload over the window `[2, 5)` of a 6-byte body -/
+def exUp : FileUpload := FileUpload.init ⟨2, 5, 2⟩ cs!"field" (.str cs!"../a b.txt") none
+
+example : exUp.cached = none ∧ sanitize nfkdTable exUp.rawFilename = some cs!"a-b.txt" := by decide +kernel
+
+def exFs : Fs := ⟨fun p => p = cs!"/up", fun p => p = cs!"/up" ∨ p = cs!"/up/old.txt", fun _ => none⟩
+
+example : (match exUp.save nfkdTable exFs [1, 2, 3, 4, 5, 6] false false (.path cs!"/up") false 2 with
+    | some (.ok sv, u') => decide (sv = ⟨some cs!"/up/a-b.txt", [[3, 4], [5]]⟩ ∧ u'.file = exUp.file)
+    | _ => false) = true := by decide +kernel
+
+example : (match { exUp with rawFilename := .str cs!"x/old.txt" }.save nfkdTable exFs [1, 2, 3, 4, 5, 6] false false
+      (.path cs!"/up") false 2 with
+    | some (.error (e, p), _) => decide (e = .other "OSError" ∧ p = none)
+    | _ => false) = true := by decide +kernel
+
+/-- `copy_file_exact`: short reads of 1, 1 (a 0 in the schedule counts as 1), then 2 bytes with chunk size 2 -/
+example : (match copySFile 2 ⟨[1, 2, 3, 4, 5], 1, [1, 0, 5]⟩ with
+    | some (.ok (ps, f')) => decide (ps = [[2], [3], [4, 5]] ∧ f' = ⟨[1, 2, 3, 4, 5], 1, []⟩)
+    | _ => false) = true := by decide +kernel
+
+/-- `proxy_window_safe`: a malformed sequence on the window `[2, 5)` -/
+example : (runProxy [1, 2, 3, 4, 5, 6] false ⟨Proxy.new 2 5, false⟩
+    [.seek (-7) 2, .read (some (-1)), .seek 100 0, .read none, .seek (-2) 1, .seek 0 3, .read (some 0)]).1 =
+    [.int 0, .bytes [3, 4, 5], .int 3, .bytes [], .int 1, .err (.py .valueError), .bytes [4, 5]] := by decide +kernel
+
+/-- `proxy_window`: a sequence of the common domain on the window `[2, 5)`, and the (equal) answers -/
+example : AgreeSeq ⟨window [1, 2, 3, 4, 5, 6] 2 5, 0⟩ [.read (some 2), .tell, .seek (-1) 1, .read none, .seek (-9) 2, .seek 0 7, .read (some (-1)), .fileno] ∧
+    (runBio ⟨window [1, 2, 3, 4, 5, 6] 2 5, 0⟩ [.read (some 2), .tell, .seek (-1) 1, .read none, .seek (-9) 2, .seek 0 7, .read (some (-1)), .fileno]).1 =
+      [.bytes [3, 4], .int 2, .int 1, .bytes [4, 5], .int 0, .err (.py .valueError), .bytes [3, 4, 5], .err (.other "OSError")] := by
+  refine ⟨?_, by decide +kernel⟩
+  simp only [AgreeSeq, Agree, bioOp, Bio.read, Bio.seek, window]
+  decide
+
+/-- `upload_roundtrip_save`: the hypotheses hold for part 1 of the example form of `form_roundtrip` -/
+example : (∀ f ∈ exFields, FieldOK f) ∧ exFields[1]? = some (.file cs!"u" cs!"q;z=1.txt" (some cs!"text/plain") [13, 10, 45, 45, 98, 32, 0, 255]) ∧
+    (dataRanges (Spec.delim (utf8Encode cs!"b d")).length (2 + (utf8Encode cs!"b d").length) exFields)[1]?.isSome = true := by
+  refine ⟨by decide, by decide, by decide +kernel⟩
+
+end NonVacuity
+
+end Ombott.Upload
